@@ -20,7 +20,7 @@ inductive NsC where
   | any
   | other
   | set (l : List String)
-  deriving Repr, Inhabited
+  deriving Repr, Inhabited, DecidableEq
 
 /-- An expanded name `(namespace, local)`; `''` is the absent namespace. -/
 structure QN where
@@ -35,7 +35,7 @@ structure Wc where
   notDefined : Bool := false          -- '##defined' ∈ not_qname
   notSibling : Bool := false          -- '##definedSibling' ∈ not_qname
   tns : String := ""
-  deriving Repr, Inhabited
+  deriving Repr, Inhabited, DecidableEq
 
 def xsiNs : String := "http://www.w3.org/2001/XMLSchema-instance"
 
